@@ -61,7 +61,7 @@ def _same(H, a, b):
         return False
 
 
-@obligation(("C01", "C04", "C05", "C07", "C08", "C14"), "pipeline.trace", functions=["svg.SVG.topicosvg"])
+@obligation(("C01", "C04", "C05", "C07", "C08", "C14", "C17"), "pipeline.trace", functions=["svg.SVG.topicosvg"])
 def pipeline_trace(H):
     """topicosvg, for every option value: the copying form clones first and converts the clone in place with the caller's
     options; the in-place form strips ignorable content before anything else, runs the simplifications in an order that
